@@ -1,6 +1,10 @@
 PROP = dict(
-    modules=["Shangrla.Model.Raire"],
-    theorems=[],
+    modules=["Shangrla.Props.C04"],
+    theorems=["Shangrla.C04.fba_sound", "Shangrla.C04.fba_min", "Shangrla.C04.valid_order_not_excluded",
+              "Shangrla.C04.raire_true", "Shangrla.C04.raire_sufficient", "Shangrla.C04.wrong_winner_empty",
+              "Shangrla.C04.raire_empty_of_impossible",
+              "Shangrla.Raire.subsumes_sound", "Shangrla.Raire.mainLoop_spec"],
     groups={"raire": (3000, 40000)},
     design_ref="DESIGN.md section 5, C04; Appendix F",
+    partial="in progress",
 )
